@@ -33,14 +33,17 @@ META = {
                   "vertex masses are positive on non-degenerate meshes (R); graph Laplacian = degree - adjacency; adjacency and "
                   "vertex-edge / vertex-face operators have exactly the documented coefficient per incidence; Re(G* A G) = L "
                   "literally for the model's matrices (generic sparse products, any direct orthonormal tangent bases; over R "
-                  "with the code's bases). CONDITIONAL on decidable mesh tests that the kernel evaluates on every generated "
+                  "with the code's bases); row k of the assembled gradient matrix times the vertex values of an affine function "
+                  "is its tangential gradient in face k; cell volumes, volume vertex masses and every inverse/sqrt option stay "
+                  "positive (R). CONDITIONAL (suffix _cond) on decidable mesh tests that the kernel evaluates on every generated "
                   "case: the edge mass matrix sums to the total area when the stored edge list covers each face's three "
                   "half-edges exactly once (edge_cover_ok; positivity of edge masses proved over R), the tetrahedral dual "
-                  "Laplacian is symmetric when cell_to_cell is (cell_adjacency_ok). Everything is also tested on every run "
-                  "by kernel-evaluated correspondence batches on generated meshes with and without border, isolated vertices, "
-                  "explicit edge lists with free edges, tets, polylines, every option - each operator on a fresh mesh, and "
-                  "random call sequences on one mesh object (after persistent mouette.attributes) with a before/after "
-                  "snapshot of everything stored on the mesh.",
+                  "Laplacian is symmetric when cell_to_cell is (cell_adjacency_ok). RESTATEMENTS (pin the generated patterns, "
+                  "count as tests): C08_incidence_patterns, C08_documented_weights_shapes, the option conjuncts of C08_mass, "
+                  "C08_gradient_real_rows. ONLY TESTED (correspondence + oracle): FlatConnectionFaces bases, the values of the "
+                  "edge / dual-cotan / volume Laplacian weights beyond symmetry and zero row sums (cotan_edge_diagonal values "
+                  "are checked by the oracle), one stored coefficient per incidence (raw nnz reported by the driver), call "
+                  "sequences on one mesh object (results, repeatability, before/after snapshot of the stored data).",
     "level_note": "Trusted: Coq kernel + vm_compute; the translator vf/translate/c08.py; the correspondence harness "
                   "(mesh generators, driver canonicalisation of scipy matrices = summed coefficients, tolerance 1e-9 on "
                   "binary64 runs from integer coordinates, 1e-12 against exact rationals); scipy's sparse constructors / products "
@@ -48,7 +51,11 @@ META = {
                   "re-derived from the face / cell list in the model and compared through the matrices; floating-point "
                   "round-off is outside the theorems (they are over fields). The connection-valued (complex transport) variants "
                   "of the Laplacians are outside C08's sentence and not modelled. Stdlib real-number axioms only for the "
-                  "theorems stated over R.",
+                  "theorems stated over R. Model conventions that differ from Python outside the property's quantifier: "
+                  "vertex indices out of range read the origin (Python raises / wraps), and coefficients are SUMMED where "
+                  "the code assigns into a lil matrix - the two agree for duplicate-free, loop-free edge lists and faces "
+                  "with distinct vertices, which the kernel checks on every case (edges_ok); the translator refuses an "
+                  "assignment where accumulation matters (volume Laplacian diagonal).",
 }
 
 HEADER = """From Coq Require Import ZArith List Bool.
@@ -181,6 +188,37 @@ def polyhedron(rng):
     return V, F
 
 
+def torus_surface(rng):
+    """genus 1: three triangular cross-sections around a triangle (9 vertices, 18 faces), lattice coordinates"""
+    Cc = [(6, 0), (-3, 5), (-3, -5)]
+    Oo = [(2, 0), (-1, 2), (-1, -2)]
+    V = []
+    for i in range(3):
+        (cx, cy), (ox, oy) = Cc[i], Oo[i]
+        V += [[cx + ox, cy + oy, 0], [cx, cy, 2], [cx - ox, cy - oy, 0]]
+    F = []
+    idx = lambda i, j: 3 * (i % 3) + (j % 3)
+    for i in range(3):
+        for j in range(3):
+            a, b, c, d = idx(i, j), idx(i + 1, j), idx(i + 1, j + 1), idx(i, j + 1)
+            if rng.random() < 0.5:
+                F += [(a, b, c), (a, c, d)]
+            else:
+                F += [(a, b, d), (b, c, d)]
+    if rng.random() < 0.5:
+        V = [[3 * x + rng.randint(-1, 1), 3 * y + rng.randint(-1, 1), 3 * z + rng.randint(-1, 1)] for x, y, z in V]
+    return V, F
+
+
+def two_components(rng):
+    V1, F1 = polyhedron(rng) if rng.random() < 0.5 else fan_surface(rng, rng.randint(3, 8), closed=True)
+    V2, F2 = fan_surface(rng, rng.randint(1, 5), closed=False) if rng.random() < 0.6 else polyhedron(rng)
+    off = len(V1)
+    V = V1 + [[x + 40, y + 7, z - 3] for x, y, z in V2]
+    F = list(F1) + [tuple(x + off for x in f) for f in F2]
+    return V, F
+
+
 def split_face(rng, V, F):
     """1 -> 3 split of a random face by a lattice point near its barycentre (scaled by 3 first so that it is one)."""
     V = [[3 * x, 3 * y, 3 * z] for x, y, z in V]
@@ -227,10 +265,16 @@ def gen_surface(rng, tier):
         elif r < 0.24:
             V, F = fan_surface(rng, rng.randint(3, 8), closed=True)
             shape = "fan-closed"
-        elif r < 0.42:
+        elif r < 0.36:
             V, F = polyhedron(rng)
             shape = "closed-polyhedron"
-        elif r < 0.70:
+        elif r < 0.40:
+            V, F = torus_surface(rng)
+            shape = "torus-genus1"
+        elif r < 0.45:
+            V, F = two_components(rng)
+            shape = "two-components"
+        elif r < 0.72:
             planar = True
             big = tier != "quick" and rng.random() < 0.15
             V, F = grid_surface(rng, rng.randint(1, 5 if big else 3), rng.randint(1, 5 if big else 3), True, holes=rng.random() < 0.3)
@@ -264,7 +308,7 @@ def gen_surface(rng, tier):
                 es.append(fe)
             else:
                 es.insert(rng.randrange(len(es) + 1), fe)
-            E = [list(e) for e in es]
+            E = [list(e) if rng.random() < 0.7 else [e[1], e[0]] for e in es]   # some given as (max, min)
         if nondegenerate_faces(V, F) and (not shape.startswith(("planar-grid", "height-field")) or projection_embedded(V, F)):
             planar = all(p[2] == V[0][2] for p in V) and all(p[2] == 0 for p in V)
             c = {"kind": "surface", "V": V, "F": [list(f) for f in F], "shape": shape, "planar": planar}
@@ -498,7 +542,7 @@ def zt(t):
     return "(" + ", ".join(zlit(int(x)) for x in t) + ")"
 
 
-def out_terms(case, obs, keep):
+def out_terms(case, obs, keep, finite_only=False):
     """list of '(opc, shape, entries)' terms for the calls whose operator name satisfies `keep` (None if one cannot be encoded)."""
     res = []
     ne = len(obs["edges"])
@@ -507,6 +551,8 @@ def out_terms(case, obs, keep):
             continue
         if o is None or "error" in o:
             return None
+        if finite_only and any(isinstance(x_, str) for e_ in o["ent"] for x_ in e_):
+            continue   # 1/0 entries: exact rationals have no infinity, the binary64 batch compares them
         sh = zt(o["shape"])
         base, _, arg = nm.partition(":")
         try:
@@ -524,10 +570,11 @@ def out_terms(case, obs, keep):
 
 
 def case_term(case, obs, keep=lambda nm: True):
+    finite_only = not callable(keep)     # the two exact-rational batches pass a list of operator names
     if not callable(keep):
         names = set(keep)
         keep = lambda nm: nm in names
-    outs = out_terms(case, obs, keep)
+    outs = out_terms(case, obs, keep, finite_only)
     if outs is None:
         return None
     return "(mkcase %s %s %s %s %s)" % (
@@ -649,6 +696,9 @@ def oracle_outs(case, obs):
         if "error" in o:
             bad.append((name + "/error", "%s raised %s" % (name, o["error"])))
             return None
+        if any(x_ == "nan" for e_ in o["ent"] for x_ in e_):
+            bad.append((name + "/nan", "%s has NaN entries" % name))
+            return None
         if shape is not None and tuple(o["shape"]) != tuple(shape):
             bad.append((name + "/shape", "%s has shape %s, expected %s (|V|=%d, |E|=%d)" % (name, tuple(o["shape"]), tuple(shape), n, m)))
             return None
@@ -671,6 +721,20 @@ def oracle_outs(case, obs):
         return bad
     eid = {k: i for i, k in enumerate(keys)}
 
+    def stored(name, want, what):
+        o = outs.get(name)
+        if o is not None and "error" not in o and "nnz" in o and o["nnz"] != want:
+            bad.append((name + "/nnz", "%s stores %d coefficients (%d of them zero), %s is %d"
+                        % (name, o["nnz"], o.get("stored_zeros", 0), what, want)))
+
+    # exactly one stored coefficient per incidence
+    for nm in ("adj:one", "adj:length", "adj:custom"):
+        stored(nm, 2 * m, "2 x |E|")
+    for nm in ("v2e:0", "v2e:1"):
+        stored(nm, 2 * m, "2 x |E|")
+    stored("glap", n + 2 * m, "|V| + 2|E|")
+    if case["kind"] == "surface":
+        stored("v2f", 3 * len(case["F"]), "3 x |F|")
     # ---- graph laplacian / adjacency / vertex-edge incidence  (all mesh kinds)
     A1 = get("adj:one", (n, n))
     if A1 is not None:
@@ -762,6 +826,21 @@ def oracle_outs(case, obs):
                     W[s, t] -= 1
             if not close(LT0, W):
                 bad.append(("laptri:0/value", "uniform dual laplacian is not degree - adjacency of the dual graph"))
+        # cotan edge diagonal: sum of the cotangents opposite to the edge (documented), its inverse with the documented clamp
+        cotsum = np.zeros(m)
+        for (a, b, c) in F:
+            for (i, j, k) in ((a, b, c), (b, c, a), (c, a, b)):      # edge (i, j), opposite vertex k
+                u, w = V[i] - V[k], V[j] - V[k]
+                cotsum[eid[(min(i, j), max(i, j))]] += float(np.dot(u, w)) / float(np.linalg.norm(np.cross(u, w)))
+        C0 = get("ced:0", (m, m))
+        if C0 is not None and not close(C0, np.diag(cotsum)):
+            bad.append(("ced:0/value", "cotan_edge_diagonal(inverse=False) is not the sum of the opposite cotangents"))
+        C1 = get("ced:1", (m, m))
+        if C1 is not None and np.all(np.abs(np.abs(cotsum) - 1e-8) > 1e-9):
+            with np.errstate(all="ignore"):
+                want = np.where(np.abs(cotsum) < 1e-8, 1e8, 1 / cotsum)
+            if not close(C1, np.diag(want)):
+                bad.append(("ced:1/value", "cotan_edge_diagonal(inverse=True) is not 1/(sum of the opposite cotangents) (1e8 when it vanishes)"))
         # gradient
         for conn in ("conn", "flat"):
             o = outs.get("gradc:" + conn)
@@ -827,10 +906,14 @@ def oracle_outs(case, obs):
                     Mo = get(nm, (n, n))
                     if Mo is not None and not close(Mo, np.diag(fn(d))):
                         bad.append((nm + "/entrywise", "%s is not the entrywise transform of the mass matrix" % nm))
+                    if Mo is not None and np.any(~(np.diag(Mo)[used] > 0)):
+                        bad.append((nm + "/positive", "%s has a non-positive entry on a vertex of a face" % nm))
         Mf = get("massf:0", (nf, nf))
         if Mf is not None:
             if not close(Mf, np.diag(area)):
                 bad.append(("massf/value", "area_weight_matrix_faces is not diag(face areas)"))
+            if np.any(~(np.diag(Mf) > 0)):
+                bad.append(("massf/positive", "area_weight_matrix_faces has a non-positive entry"))
             Mi = get("massf:1", (nf, nf))
             if Mi is not None and not close(Mi, np.diag(1 / area)):
                 bad.append(("massf:1/entrywise", "area_weight_matrix_faces(inverse) is not the entrywise inverse"))
@@ -886,14 +969,20 @@ def oracle_outs(case, obs):
                 Mo = get(nm, (n, n))
                 if Mo is not None and not close(Mo, np.diag(fn(d))):
                     bad.append((nm + "/entrywise", "%s is not the entrywise transform of the mass matrix" % nm))
+                if Mo is not None and np.any(~(np.diag(Mo) > 0)):
+                    bad.append((nm + "/positive", "%s has a non-positive entry" % nm))
         Mc = get("massvc:0,0", (nc, nc))
         if Mc is not None:
             if not close(Mc, np.diag(vol)):
                 bad.append(("massvc/value", "volume_weight_matrix_cells is not diag(cell volumes)"))
+            if np.any(~(np.diag(Mc) > 0)):
+                bad.append(("massvc/positive", "volume_weight_matrix_cells has a non-positive entry"))
             for nm, fn in (("massvc:1,0", lambda x: 1 / x), ("massvc:0,1", np.sqrt), ("massvc:1,1", lambda x: 1 / np.sqrt(x))):
                 Mo = get(nm, (nc, nc))
                 if Mo is not None and not close(Mo, np.diag(fn(vol))):
                     bad.append((nm + "/entrywise", "%s is not the entrywise transform of the cell mass matrix" % nm))
+                if Mo is not None and np.any(~(np.diag(Mo) > 0)):
+                    bad.append((nm + "/positive", "%s has a non-positive entry" % nm))
     return bad
 
 
@@ -968,8 +1057,24 @@ def shrink(case, key, budget=45):
     return cur
 
 
-def classify_known(key):
-    return key
+def input_class(case):
+    """input class that, with the operator and the violated clause, keys a known finding"""
+    ne = len(case.get("F") or case.get("C") or case.get("E") or [])
+    tags = []
+    if ne == 1:
+        tags.append("single-element")
+    if "isolated-vertex" in case.get("shape", "") or (case["kind"] == "surface" and not case.get("E")
+                                                          and len({x for f in case["F"] for x in f}) < len(case["V"])):
+        tags.append("isolated-vertex")
+    if case["kind"] == "surface" and case.get("E"):
+        tags.append("explicit-edges")
+    if "seq" in case:
+        tags.append("call-sequence(pre=%s)" % ",".join(sorted(case.get("pre", []))))
+    return case["kind"] + ("+" + "+".join(tags) if tags else "")
+
+
+def classify_known(case, key):
+    return key + "@" + input_class(case)
 
 
 def run(ctx):
@@ -985,7 +1090,8 @@ def run(ctx):
                 "Every operator with every option on a fresh mesh. Non-trivial = surface with an interior edge / >= 2 cells / >= 2 edges; "
                 "distinct = canonical JSON of (V, elements)")
     ctx.assumptions += ["coordinates are small integers, so binary64 results agree with the field values within 1e-9",
-                        "meshes are manifold, consistently oriented, non-degenerate (the property's quantifier)"]
+                        "meshes are manifold, consistently oriented, non-degenerate (the property's quantifier)",
+                        "vertex indices are in range and edge lists duplicate-free (checked per case inside Coq: edges_ok)"]
     ctx.regen(sys.modules[__name__])
     b = ctx.build_props(extra_targets=["theories/C08/Run.vo"])
     ctx.hygiene(["Lib", "C08"])
@@ -1028,25 +1134,42 @@ def run(ctx):
     for idx, (c, o) in enumerate(zip(cases, obs)):
         for key, msg in oracle(c, o):
             fails.append((idx, key, msg))
+    unknown = [(i, k, m_) for i, k, m_ in fails if not ctx.known(classify_known(cases[i], k))]
     ctx.obligation("oracle: every returned matrix satisfies the identities C08 states (independent numpy assembly)",
-                   "oracle-on-implementation", True, "%d failing (case, clause) pairs" % len(fails))
+                   "oracle-on-implementation", not unknown,
+                   "%d failing (case, clause) pairs, %d of them not listed known findings" % (len(fails), len(unknown)))
 
     ctx.log("oracle done: %d failing clauses" % len(fails))
     # 2. kernel-checked correspondence
     bads = {}
     if b["model_ok"]:
-        terms, ids = [], []
+        terms, ids, dropped = [], [], []
         for idx, (c, o) in enumerate(zip(cases, obs)):
             if "error" in o:
+                dropped.append((idx, "mesh construction / driver error: " + str(o["error"])[:120]))
                 continue
             t = case_term(c, o)
             if t is None:
-                bads.setdefault("float", []).append(idx)
+                why = []
+                for nm, r_ in results_of(c, o):
+                    if r_ is None or "error" in r_:
+                        why.append("%s: %s" % (nm, "no result" if r_ is None else r_["error"]))
+                    elif any(x_ == "nan" for e_ in r_.get("ent", []) for x_ in e_):
+                        why.append(nm + ": NaN entries")
+                    elif r_.get("complex") and not nm.startswith("gradc"):
+                        why.append(nm + ": unexpected complex matrix")
+                dropped.append((idx, "not encodable for the kernel batch (%s)" % "; ".join(map(str, why))[:200]))
                 continue
             terms.append(t)
             ids.append(idx)
+        # cases the harness could not hand to the kernel are counted and fail the run (each also carries an oracle failure)
+        ctx.obligation("harness: every generated case was encoded for the kernel-checked batches (%d cases)" % len(cases),
+                       "harness", not dropped and len(terms) > 0,
+                       "; ".join("case %d %s" % d_ for d_ in dropped[:5]) + (" ... %d in all" % len(dropped) if len(dropped) > 5 else ""))
+        for d_ in dropped:
+            ctx.count("dropped before the kernel batch")
         r = ctx.run_cases("float", HEADER, terms, "check_float", case_type="case", shard=12 if quick else 16)
-        bads["float"] = bads.get("float", []) + [ids[i] for i in (r or [])]
+        bads["float"] = [ids[i] for i in (r or [])]
         if r is None:
             bads["float-eval"] = [-1]
         terms, ids = [], []
@@ -1081,12 +1204,17 @@ def run(ctx):
     ctx.log("correspondence done")
     # 3. verdicts
     reported = set()
-    for idx, key, msg in fails:
-        if key in reported:
+    # every failing (case, clause) is classified; unknown classes first, listed known findings afterwards
+    for idx, key, msg in sorted(fails, key=lambda t: bool(ctx.known(classify_known(cases[t[0]], t[1])))):
+        fkey = classify_known(cases[idx], key)
+        if fkey in reported:
             continue
-        reported.add(key)
-        if ctx.known(key):
-            ctx.report_known(key, ctx.known(key)["what"])
+        reported.add(fkey)
+        if ctx.known(fkey):
+            ctx.report_known(fkey, ctx.known(fkey)["what"])
+            continue
+        if len([r_ for r_ in reported if not ctx.known(r_)]) > 6:
+            ctx.violation(msg, {"case": cases[idx], "class": key, "input_class": input_class(cases[idx])}, key=fkey)
             continue
         small = shrink({k: v for k, v in cases[idx].items()}, key)
         ob = one(small)
@@ -1095,9 +1223,8 @@ def run(ctx):
             observed = [{k_: st[k_] for k_ in ("op", "shape", "ent", "error", "mutated") if k_ in st} for st in ob["steps"]][:8]
         else:
             observed = {k_: v_ for k_, v_ in ob["outs"].items() if k_.split("/")[0].split(":")[0] in key}
-        ctx.violation(msgs[0], {"case": small, "class": key, "observed": observed}, key=key)
-        if len(reported) >= 6:
-            break
+        ctx.violation(msgs[0], {"case": small, "class": key, "input_class": input_class(small), "observed": observed},
+                      key=classify_known(small, key))
     disagree = sorted({i for k in bads for i in bads[k] if i >= 0})
     if disagree and not fails:
         ctx.notes.append("model and implementation disagree on cases %s but the oracle accepts the implementation's matrices" % disagree[:8])
